@@ -180,7 +180,12 @@ func (r *remoteKeySet) keysFromRemote(ctx context.Context) ([]jose.JSONWebKey, e
 		// This goroutine has exclusive ownership over the current inflight
 		// request. It releases the resource by nil'ing the inflight field
 		// once the goroutine is done.
-		go r.updateKeys(ctx)
+		//
+		// The request is shared by every caller that arrives while it is in
+		// flight, so it must not end with the context of the caller that
+		// happened to start it: the values of ctx (tracing) are kept, its
+		// cancellation is not.
+		go r.updateKeys(context.WithoutCancel(ctx))
 		verifPoint(ctx, "jwks:spawn")
 	}
 	inflight := r.inflight
